@@ -3,9 +3,9 @@ CONSTANTS
   NC = 7
   Driven = {1,2}
   Targets = {1,2,3}
-  AliasTargets = {1,3}
-  MaxNum = 3
-  MaxOps = 8
+  AliasTargets = {3}
+  MaxNum = 2
+  MaxOps = 6
   Known = {"C20-1"}
 VIEW View
 ACTION_CONSTRAINT Emit
